@@ -284,30 +284,29 @@ def parseWith (env : Env) (nt : Ctx → Ctx × Outcome Tok) (start : Nat) (ctx :
 def layoutParse (env : Env) (ls : Nat) (ctx : Ctx) (fuel : Nat) : Ctx × Outcome ParseResult :=
   parseWith env (nextTokenBase env true) ls { ctx with state := ls } fuel
 
-/-- `next_token` of the main parser (parser.rs:199-292) -/
-def nextTokenMain (env : Env) (partialParse : Bool) : Nat → Ctx → Ctx × Outcome Tok
-  | 0, ctx => (ctx, .fuel)
-  | fuel+1, ctx =>
-    let (ctx, toks) := lexNext env ctx (env.t.sorted ctx.state)
-    match pickToken env.longest toks with
-    | some tk => (ctx, .ok tk)
-    | none =>
-      match env.t.layoutState with
-      | none => noToken env partialParse ctx
-      | some ls =>
-        let cur := ctx.state
-        let (ctx, r) := layoutParse env ls ctx fuel
-        let ctx := { ctx with state := cur }
-        match r with
-        | .ok pr =>
-          match pr.slice with
-          | some (off, len) =>
-            if len > 0 then nextTokenMain env partialParse fuel { ctx with lay := some (off, len) }
-            else noToken env partialParse ctx
-          | none => noToken env partialParse ctx
-        | .err _ => noToken env partialParse ctx
-        | .panic s => (ctx, .panic s)
-        | .fuel => (ctx, .fuel)
+/-- `next_token` of the main parser (parser.rs:199-295): lex; if nothing matches run the layout
+    parser once and lex again (`layout_parsing` flag); otherwise partial-parse STOP or error -/
+def nextTokenMain (env : Env) (partialParse : Bool) (fuel : Nat) (ctx : Ctx) : Ctx × Outcome Tok :=
+  let (ctx, toks) := lexNext env ctx (env.t.sorted ctx.state)
+  match pickToken env.longest toks with
+  | some tk => (ctx, .ok tk)
+  | none =>
+    match env.t.layoutState with
+    | none => noToken env partialParse ctx
+    | some ls =>
+      let cur := ctx.state
+      let (ctx, r) := layoutParse env ls ctx fuel
+      let ctx := { ctx with state := cur }
+      match r with
+      | .ok pr =>
+        match pr.slice with
+        | some (off, len) =>
+          if len > 0 then nextTokenBase env partialParse { ctx with lay := some (off, len) }
+          else noToken env partialParse ctx
+        | none => noToken env partialParse ctx
+      | .err _ => noToken env partialParse ctx
+      | .panic s => (ctx, .panic s)
+      | .fuel => (ctx, .fuel)
 
 /-- `LRParser::parse` -/
 def parse (env : Env) (partialParse : Bool) (fuel : Nat) : Ctx × Outcome ParseResult :=
